@@ -36,6 +36,24 @@ impl Serialize for FailAfter {
 	}
 }
 
+/// A value that can be serialised once: it hands out the items of an iterator (what `Serializer::collect_seq` is for).
+/// A second serialisation fails or, if `drained_is_empty`, writes an empty sequence.
+struct OneShot {
+	items: std::cell::RefCell<Option<Vec<u64>>>,
+	drained_is_empty: bool,
+}
+
+impl Serialize for OneShot {
+	fn serialize<S: Serializer>(&self, s: S) -> Result<S::Ok, S::Error> {
+		use serde::ser::Error;
+		match self.items.borrow_mut().take() {
+			Some(v) => s.collect_seq(v),
+			None if self.drained_is_empty => s.collect_seq(Vec::<u64>::new()),
+			None => Err(S::Error::custom("the iterator was already consumed")),
+		}
+	}
+}
+
 #[derive(Clone, Debug, Serialize, Deserialize)]
 pub enum Ins {
 	Val(J),
@@ -45,6 +63,8 @@ pub enum Ins {
 	BadKeyMap,
 	/// clone the half-built builder; build the original here and compare; continue with the clone
 	Clone,
+	/// a value that can only be serialised once (see `OneShot`)
+	OneShot(Vec<u64>, bool),
 }
 
 #[derive(Clone, Debug, Serialize, Deserialize)]
@@ -127,6 +147,7 @@ impl SubCheck for Builders {
 			2 => (0usize..4, any::<bool>()).prop_map(|(n, map)| Ins::Fail { n, map }),
 			1 => Just(Ins::BadKeyMap),
 			1 => Just(Ins::Clone),
+			1 => (proptest::collection::vec(any::<u64>(), 0..4), any::<bool>()).prop_map(|(v, e)| Ins::OneShot(v, e)),
 		];
 		(any::<bool>(), proptest::collection::vec((arb_key(), ins), 0..tier.pick(12, 20))).prop_map(|(named, ops)| BuilderCase { named, ops }).boxed()
 	}
@@ -177,6 +198,14 @@ impl SubCheck for Builders {
 						m.insert(vec![1, 2], 3);
 						let r = b.insert(name, m);
 						obs2.check(r.is_err(), "builders/failing-insert-reported-ok", || format!("{op:?}"));
+					}
+					Ins::OneShot(items, drained_is_empty) => {
+						attempts = true;
+						had_container = true;
+						match b.insert(name, OneShot { items: std::cell::RefCell::new(Some(items.clone())), drained_is_empty: *drained_is_empty }) {
+							Ok(()) => expect.push((name.clone(), json!(items))),
+							Err(e) => obs2.fail("builders/insert-of-valid-value-failed", format!("{op:?}: {e}")),
+						}
 					}
 					Ins::Clone => {
 						let orig = std::mem::replace(&mut b, B::A(ArrayParams::new()));
